@@ -9,5 +9,6 @@ Extraction "../build/ocaml/C13/model.ml"
   cfg_head cfg_selfail cfg_selfail_fixed cfg_nojoin sh_selfail_witness sh_nojoin_witness
   th_run th_cycles th_zombie th_live lock_table lock_table_palette lock_table_n respects_rank
   c13_z_for_vutil cur_witness it_witness sh_witness sh_finishing sj_step sj_init sj_uaf sj_freed sj_final sj_witness
-  nf_step nf_init nf_final nf_ok nf_send nf_badunlock nf_pcA nf_pcB nf_gone_witness nf_new_witness
+  nf_step nf_init nf_final nf_ok nf_send nf_badunlock nf_pcA nf_pcB nf_gone_witness nf_new_witness nf_finishing
+  iw_step iw_init iw_final iw_uaf iw_fr0 iw_fr1
   P_send P_cursor P_upd P_list P_ref P_out.
